@@ -15,6 +15,7 @@ import (
 	"fmt"
 	"math/rand"
 	"os"
+	"runtime"
 	"sort"
 	"strconv"
 	"strings"
@@ -582,7 +583,37 @@ func TestDrive(t *testing.T) {
 		}
 	}
 	results := make([]Result, 0, len(scs))
+	writeOut := func() {
+		b, err := json.Marshal(results)
+		if err == nil {
+			_ = os.WriteFile(out, b, 0644)
+		}
+	}
 	for _, sc := range scs {
+		// watchdog in real time, outside the bubble: goroutines blocked on a mutex are not "durably blocked" for synctest, so a
+		// lock that is never released makes synctest.Wait wait for ever. After 90 s of wall time for one scenario the goroutine
+		// stacks are recorded, the results so far are written and the process exits.
+		sc := sc
+		watchdog := time.AfterFunc(90*time.Second, func() {
+			buf := make([]byte, 1<<20)
+			buf = buf[:runtime.Stack(buf, true)]
+			var blocked []string
+			for _, g := range strings.Split(string(buf), "\n\n") {
+				if strings.Contains(g, "/internal/") && (strings.Contains(g, "sync.(*Mutex).Lock") || strings.Contains(g, "sync.(*RWMutex)") || strings.Contains(g, "semacquire") || strings.Contains(g, "sync.(*WaitGroup).Wait") || strings.Contains(g, "sync.(*Cond).Wait")) {
+					lines := strings.Split(g, "\n")
+					if len(lines) > 14 {
+						lines = lines[:14]
+					}
+					blocked = append(blocked, strings.Join(lines, "\n"))
+				}
+			}
+			if len(blocked) > 6 {
+				blocked = blocked[:6]
+			}
+			results = append(results, Result{ID: sc.ID, Cfg: sc, Outcome: "stuck", Detail: strings.Join(blocked, "\n--\n")})
+			writeOut()
+			os.Exit(3)
+		})
 		// a subtest per scenario: a race report makes synctest.Test end its caller (FailNow); only this scenario's test ends
 		var r *Result
 		t.Run(fmt.Sprint("s", sc.ID), func(t *testing.T) {
@@ -594,6 +625,7 @@ func TestDrive(t *testing.T) {
 			x := runScenario(t, sc)
 			r = &x
 		})
+		watchdog.Stop()
 		results = append(results, *r)
 	}
 	b, err := json.Marshal(results)
